@@ -38,6 +38,7 @@ type fontSpec struct {
 	base   string
 	glyphs int // 0 = default
 	glyf   int // 0 = natural size
+	cmap   int // 0 = as is; 3 = (0,3)=A (3,1)=A (3,10)=B: a shared subtable followed by a distinct one; 4 = (0,3)=A (0,4)=B (3,1)=A (3,10)=B
 }
 
 func parseSpec(name string) (fontSpec, error) {
@@ -57,6 +58,8 @@ func parseSpec(name string) (fontSpec, error) {
 			s.glyphs = n
 		case "glyf":
 			s.glyf = n
+		case "cmap":
+			s.cmap = n
 		default:
 			return s, errors.New("unknown font parameter " + kv[0])
 		}
